@@ -272,6 +272,29 @@ def run(tier):
     for prog in programs:
         explore(prog)
     log(f"[C08] schedules: {schedules} over {len(programs)} thread programs (preemption bound {bound}), {len(sched_states)} distinct")
+    # ------------------------------------------------------------ 4. sampling supplement: 16 free-running threads
+    free_runs = 8 if tier == "quick" else 60
+    free_calls = 0
+    pool = ["A", "A'", "B", "AqBs", "BqAs", "missQ", "badS", "Astr", "Ajson", "Aopt"]
+
+    def free_run(k):
+        prog = [[pool[(k + t + i * 3) % len(pool)] for i in range(4)] for t in range(16)]
+        spec = {"threads": [[sigma[n] for n in t] for t in prog], "free": True}
+        rc, out, err = run_process([VW, "sched", json.dumps(spec)], timeout=120)
+        try:
+            return prog, json.loads(out.splitlines()[-1])
+        except Exception:
+            return prog, {"status": "died", "returncode": rc, "stderr": (err or "")[-300:]}
+    for prog, r in parallel_map(free_run, list(range(free_runs)), nthreads=4):
+        if r.get("status") != "ok":
+            rep.violation("free_running_process_failed", {"threads": prog}, r)
+            continue
+        for ti, (tprog, touts) in enumerate(zip(prog, r["results"])):
+            for ci, (n, resp) in enumerate(zip(tprog, touts)):
+                free_calls += 1
+                if outcome(resp) != solo[n]:
+                    rep.violation("outcome_depends_on_schedule", {"threads": prog, "thread": ti, "call_index": ci, "call": n, "exploration": "16 free-running threads (sampling)"},
+                                  {"in_run": outcome(resp), "alone": solo[n]})
     cov = {
         "states": len(seen_states) + len(sched_states),
         "transitions": transitions + sum(len(h) for h in hist_jobs) + schedules,
@@ -289,6 +312,7 @@ def run(tier):
         "unrolled_histories": len(hist_jobs), "schedules": schedules, "schedules_distinct": len(sched_states),
         "schedules_with_switch": switches, "schedules_replayed": replayed, "preemption_bound": bound,
         "thread_programs": len(programs),
+        "sampling_supplement_16_free_threads": {"processes": free_runs, "calls": free_calls, "note": "sampling, not part of the exhaustive claim"},
         "solo_outcomes": {n: solo[n][0] for n in names},
         "exhaustive": bool(fixpoint),
         "samples": [{"history": h} for h in pick_samples(hist_jobs, 3)] + [{"state_reached_by": v} for v in pick_samples(list(seen_states.values()), 3)]
